@@ -70,11 +70,32 @@ class Facts:
         """Normalisation: `x = NAMED_CONST` where the constant is a plain struct of scalars (const-evaluated by the
         driver to {field: value}) becomes the struct literal it stands for, so that rules which look at literals
         (placeholders, sentinels) see through a named constant."""
+        def scalar(v):
+            return isinstance(v, (int, bool)) or (isinstance(v, dict) and set(v.keys()) == {"variant", "discr"})
         vals = {k["path"]: k for k in c.get("consts", []) if isinstance(k.get("value"), dict) and k["value"]
-                and all(isinstance(v, (int, bool)) for v in k["value"].values())}
+                and "variant" not in k["value"] and all(scalar(v) for v in k["value"].values())}
         if not vals:
             return
         adts = {a["path"]: a for a in c.get("adts", [])}
+
+        def literal(k):
+            kv = vals[k["def"]]
+            adt = adts.get(kv["ty"]) or adts.get(kv["ty"].split("<")[0])
+            if adt is None or adt.get("kind") != "Struct" or len(adt["variants"]) != 1:
+                return None
+            flds = adt["variants"][0]["fields"]
+            if [f["name"] for f in flds] != list(kv["value"].keys()) and set(f["name"] for f in flds) != set(kv["value"].keys()):
+                return None
+            ops = []
+            for f in flds:
+                v = kv["value"][f["name"]]
+                if isinstance(v, dict):
+                    ops.append({"const": {"ty": f["ty"], "text": "%s::%s (%s.%s)" % (f["ty"], v["variant"], k["def"], f["name"]), "val": {"variant": v["variant"]}}})
+                else:
+                    ops.append({"const": {"ty": f["ty"], "text": "%s (%s.%s)" % (v, k["def"], f["name"]), "val": int(v)}})
+            return {"agg": "adt", "adt": adt["path"], "variant": adt["variants"][0]["name"], "vidx": 0,
+                    "fields": [f["name"] for f in flds], "ops": ops, "from_const": k["def"]}
+
         for b in c["bodies"]:
             for blk in b["blocks"]:
                 for s_ in blk["stmts"]:
@@ -83,18 +104,23 @@ class Facts:
                     k = s_["rv"]["use"].get("const") if isinstance(s_["rv"]["use"], dict) else None
                     if not k or k.get("def") not in vals:
                         continue
-                    kv = vals[k["def"]]
-                    adt = adts.get(kv["ty"]) or adts.get(kv["ty"].split("<")[0])
-                    if adt is None or adt.get("kind") != "Struct" or len(adt["variants"]) != 1:
-                        continue
-                    flds = adt["variants"][0]["fields"]
-                    if [f["name"] for f in flds] != list(kv["value"].keys()) and set(f["name"] for f in flds) != set(kv["value"].keys()):
-                        continue
-                    s_["rv"] = {"agg": "adt", "adt": adt["path"], "variant": adt["variants"][0]["name"], "vidx": 0,
-                                "fields": [f["name"] for f in flds],
-                                "ops": [{"const": {"ty": f["ty"], "text": "%s (%s.%s)" % (kv["value"][f["name"]], k["def"], f["name"]),
-                                                   "val": int(kv["value"][f["name"]])}} for f in flds],
-                                "from_const": k["def"]}
+                    lit = literal(k)
+                    if lit is not None:
+                        s_["rv"] = lit
+                # the constant handed to a call directly: bound to a fresh local first
+                t = blk["term"]
+                if t.get("k") == "call":
+                    for i, a in enumerate(t.get("args", [])):
+                        k = a.get("const") if isinstance(a, dict) else None
+                        if not k or k.get("def") not in vals:
+                            continue
+                        lit = literal(k)
+                        if lit is None:
+                            continue
+                        nl = len(b["locals"])
+                        b["locals"].append({"ty": vals[k["def"]]["ty"], "mut": False})
+                        blk["stmts"].append({"k": "assign", "line": t.get("line", 0), "exp": False, "lhs": {"l": nl, "p": []}, "rv": lit})
+                        t["args"][i] = {"move": {"l": nl, "p": []}}
 
     def crate(self, name):
         return self.crates[name]
